@@ -34,9 +34,22 @@ func (s *regService) build() *restful.WebService {
 	ws := new(restful.WebService).Path(s.root)
 	ws.SetDynamicRoutes(true)
 	for _, p := range s.routes {
+		if p == "/dup" {
+			addDupRoutes(ws, s.root)
+			continue
+		}
 		addRegRoute(ws, s.root, p)
 	}
 	return ws
+}
+
+// two routes with the same method and path, registered one after the other: the first only serves requests
+// that ask for it, the second serves the rest. RemoveRoute(path, method) removes both.
+func addDupRoutes(ws *restful.WebService, root string) {
+	tag := "ws:" + root + ":/dup"
+	ws.Route(ws.GET("/dup").If(func(r *http.Request) bool { return r.Header.Get("X-V") == "1" }).
+		To(func(req *restful.Request, resp *restful.Response) { resp.Write([]byte(tag + "#1")) }))
+	ws.Route(ws.GET("/dup").To(func(req *restful.Request, resp *restful.Response) { resp.Write([]byte(tag + "#2")) }))
 }
 
 func addRegRoute(ws *restful.WebService, root, p string) {
@@ -111,7 +124,7 @@ func newRegContainer(router string) *restful.Container {
 	return c
 }
 
-var regProbes = []string{"/", "/a", "/a/", "/a/b", "/a/b/z", "/a/q/c", "/a/q/d", "/ab", "/ab/z", "/q", "/h/x", "/plain", "/a/q",
+var regProbes = []string{"/a/dup", "/ab/dup", "/q/dup", "/dup", "/", "/a", "/a/", "/a/b", "/a/b/z", "/a/q/c", "/a/q/d", "/ab", "/ab/z", "/q", "/h/x", "/plain", "/a/q",
 	"/a/x", "/a/b/x", "/ab/x", "/a/q/c/x", "/q/x", "/a/dyn", "/a/dyn2", "/q/dyn2", "/ab/dyn2", "/users/7/a", "/users/7/b/x", "/x", "/a/b/dyn"}
 
 func runRegHistory(tw *traceWriter, h regHistory, router string) {
@@ -149,6 +162,43 @@ func runRegHistory(tw *traceWriter, h regHistory, router string) {
 			pv = safely(func() { c.Handle(op[1], regHandler(op[1])) })
 			if pv == "" {
 				handlers = append(handlers, []string{op[1], op[1]})
+			}
+		case "badhandle":
+			// a registration that net/http may refuse (the pattern is taken): Handle panics, as documented, the
+			// caller recovers, and the container is as it was
+			if refused := safely(func() { c.Handle(op[1], regHandler(op[1])) }); refused == "" {
+				op = []string{"handle", op[1]}
+				handlers = append(handlers, []string{op[1], op[1]})
+			}
+		case "dup": // two routes on one method and path
+			if ws, ok := live[op[1]]; ok {
+				for _, s := range content {
+					if s.root == op[1] {
+						has := false
+						for _, p := range s.routes {
+							has = has || p == "/dup"
+						}
+						if !has {
+							addDupRoutes(ws, s.root)
+							s.routes = append(s.routes, "/dup")
+						}
+					}
+				}
+			}
+		case "undup":
+			if ws, ok := live[op[1]]; ok {
+				for _, s := range content {
+					if s.root == op[1] {
+						ws.RemoveRoute(strings.TrimRight(s.root, "/")+"/dup", "GET")
+						nr := []string{}
+						for _, p := range s.routes {
+							if p != "/dup" {
+								nr = append(nr, p)
+							}
+						}
+						s.routes = nr
+					}
+				}
 			}
 		case "route": // add route /dyn to a live service
 			if ws, ok := live[op[1]]; ok {
@@ -261,6 +311,7 @@ func runRegistry(planPath, outPath string, seed int64) {
 	for i := 0; i < p.Random; i++ {
 		present := map[string]bool{}
 		handled := map[string]bool{}
+		everRoot := false
 		h := regHistory{}
 		n := 3 + r.Intn(p.MaxOps)
 		if r.Intn(3) == 0 {
@@ -275,6 +326,7 @@ func runRegistry(planPath, outPath string, seed int64) {
 			case x < 45:
 				root := pick(r, pool)
 				if !present[root] {
+					everRoot = everRoot || root == "/" || strings.HasPrefix(root, "/{")
 					present[root] = true
 					h.Ops = append(h.Ops, []string{"add", root})
 				}
@@ -296,9 +348,40 @@ func runRegistry(planPath, outPath string, seed int64) {
 					handled[hp] = true
 					h.Ops = append(h.Ops, []string{"handle", hp})
 				}
-			case x < 86:
+			case x < 84:
 				h.Ops = append(h.Ops, []string{"route", pick(r, pool)})
-			case x < 93:
+			case x < 86:
+				// a pattern that is certainly taken: handled before, or mapped by a present WebService (no
+				// WebService on "/" in this history: after one, later services register no pattern of their own)
+				cands := []string{}
+				for _, hp := range hpool {
+					if handled[hp] {
+						cands = append(cands, hp)
+					}
+				}
+				if !everRoot {
+					for _, q := range []string{"/a", "/ab", "/q"} {
+						if present[q] {
+							cands = append(cands, q, q+"/")
+						}
+					}
+				}
+				if len(cands) > 0 {
+					h.Ops = append(h.Ops, []string{"badhandle", pick(r, cands)})
+				}
+			case x < 91:
+				// two routes on one method and path are added to a present WebService and removed again
+				cands := []string{}
+				for _, q := range []string{"/", "/a", "/ab", "/q"} {
+					if present[q] {
+						cands = append(cands, q)
+					}
+				}
+				if len(cands) > 0 {
+					root := pick(r, cands)
+					h.Ops = append(h.Ops, []string{"dup", root}, []string{"undup", root})
+				}
+			case x < 94:
 				h.Ops = append(h.Ops, []string{"swap", pick(r, pool)})
 			default:
 				h.Ops = append(h.Ops, []string{"unroute", pick(r, pool)})
